@@ -2,6 +2,7 @@
 #ifndef VF_WRAPPER_HH
 #define VF_WRAPPER_HH
 
+#include <algorithm>
 #include <cmath>
 #include <cstring>
 #include <typeinfo>
@@ -370,8 +371,69 @@ __attribute__((noinline)) void run_zero(long id, const char *rname, const char *
         { Q q3 = au::ZERO; VF_CMP("Q=Z", q3.in(U{}), z); }
         { Q q4 = q; q4 = au::ZERO; VF_CMP("q=Z", q4.in(U{}), z); }
         { R t = au::ZERO; VF_CMP("T=Z", t, z); }
-        VF_CMP("min", min(q, au::ZERO).in(U{}), (z < la ? z : la));
-        VF_CMP("max", max(q, au::ZERO).in(U{}), (z < la ? la : z));
+        VF_CMP("min", min(q, au::ZERO).in(U{}), std::min(la, z));
+        VF_CMP("max", max(q, au::ZERO).in(U{}), std::max(la, z));
+    });
+    printf("{\"ev\":\"zero\",\"id\":%ld,\"rep\":\"%s\",\"unit\":\"%s\",\"evals\":%llu,\"values\":%zu,\"mm\":%llu,\"wit\":[", id, rname, uname,
+           (unsigned long long)g_st.evals, vals.size(), (unsigned long long)g_st.mm);
+    for (int i = 0; i < g_st.nwit; ++i)
+        printf("%s{\"op\":\"%s\",\"a\":\"%s\",\"got\":\"%s\",\"want\":\"%s\"}", i ? "," : "", g_st.wit[i].op, g_st.wit[i].a, g_st.wit[i].got, g_st.wit[i].want);
+    printf("]}\n");
+}
+
+// ---- C19 with user-defined reps -----------------------------------------------------------------------
+// Au accepts any non-empty class type with arithmetic operators as a rep.  A rep's default-constructed value need not be its
+// numeric zero: these two wrappers default to NaN / to a sentinel, so "ZERO is the exact value 0 for any rep" is observable
+// separately from "ZERO is Rep{}".
+template <typename B, int Tag>
+struct UdRep {
+    B v;
+    constexpr UdRep() : v(Tag == 0 ? (B)__builtin_nan("") : (B)-999) {}
+    constexpr UdRep(B x) : v(x) {}  // NOLINT(runtime/explicit)
+    friend constexpr UdRep operator+(UdRep a, UdRep b) { return {a.v + b.v}; }
+    friend constexpr UdRep operator-(UdRep a, UdRep b) { return {a.v - b.v}; }
+    friend constexpr UdRep operator*(UdRep a, UdRep b) { return {a.v * b.v}; }
+    friend constexpr UdRep operator/(UdRep a, UdRep b) { return {a.v / b.v}; }
+    friend constexpr UdRep operator-(UdRep a) { return {-a.v}; }
+    friend constexpr UdRep operator+(UdRep a) { return a; }
+    UdRep &operator+=(UdRep o) { v += o.v; return *this; }
+    UdRep &operator-=(UdRep o) { v -= o.v; return *this; }
+    friend constexpr bool operator==(UdRep a, UdRep b) { return a.v == b.v; }
+    friend constexpr bool operator!=(UdRep a, UdRep b) { return a.v != b.v; }
+    friend constexpr bool operator<(UdRep a, UdRep b) { return a.v < b.v; }
+    friend constexpr bool operator<=(UdRep a, UdRep b) { return a.v <= b.v; }
+    friend constexpr bool operator>(UdRep a, UdRep b) { return a.v > b.v; }
+    friend constexpr bool operator>=(UdRep a, UdRep b) { return a.v >= b.v; }
+};
+template <typename U, typename B, int Tag>
+__attribute__((noinline)) void run_zero_udrep(long id, const char *rname, const char *uname) {
+    using R = UdRep<B, Tag>;
+    using Q = au::Quantity<U, R>;
+    g_st.clear();
+    vf::g_inst = id;
+    static std::vector<B> vals;
+    vals.clear();
+    const long double c[] = {0, 1, -1, 2, -7, 1000, -999, 0.5L, -0.25L, 1e9L};
+    for (long double x : c) if (std::is_floating_point<B>::value || x == (long long)x) vals.push_back((B)x);
+    if (std::is_floating_point<B>::value) { vals.push_back((B)-0.0); vals.push_back((B)__builtin_nan("")); vals.push_back((B)__builtin_inf()); }
+    static const B *pv;
+    pv = vals.data();
+    vf::run_loop(0, vals.size(), [&](u64 idx) {
+        const B a = pv[idx]; const B b = B(0);
+        { u64 x = 0; memcpy(&x, &a, sizeof(B) < 8 ? sizeof(B) : 8); vf::g_aux0 = x; }
+        const B la = vf::launder(a); const B z = vf::launder(B(0));
+        Q q = au::make_quantity<U>(R(la));
+        VF_CMP("q==Z", q == au::ZERO, la == z); VF_CMP("q!=Z", q != au::ZERO, la != z); VF_CMP("q<Z", q < au::ZERO, la < z);
+        VF_CMP("q<=Z", q <= au::ZERO, la <= z); VF_CMP("q>Z", q > au::ZERO, la > z); VF_CMP("q>=Z", q >= au::ZERO, la >= z);
+        VF_CMP("Z==q", au::ZERO == q, z == la); VF_CMP("Z!=q", au::ZERO != q, z != la); VF_CMP("Z<q", au::ZERO < q, z < la);
+        VF_CMP("Z<=q", au::ZERO <= q, z <= la); VF_CMP("Z>q", au::ZERO > q, z > la); VF_CMP("Z>=q", au::ZERO >= q, z >= la);
+        VF_CMP("q+Z", (q + au::ZERO).in(U{}).v, la + z);
+        VF_CMP("q-Z", (q - au::ZERO).in(U{}).v, la - z);
+        VF_CMP("Z+q", (au::ZERO + q).in(U{}).v, z + la);
+        VF_CMP("Q{Z}", Q{au::ZERO}.in(U{}).v, z);
+        { Q q3 = au::ZERO; VF_CMP("Q=Z", q3.in(U{}).v, z); }
+        { Q q4 = q; q4 = au::ZERO; VF_CMP("q=Z", q4.in(U{}).v, z); }
+        { Q q2 = q; B r2 = la; r2 += z; VF_CMP("q+=Z", (q2 += au::ZERO, q2.in(U{}).v), r2); }
     });
     printf("{\"ev\":\"zero\",\"id\":%ld,\"rep\":\"%s\",\"unit\":\"%s\",\"evals\":%llu,\"values\":%zu,\"mm\":%llu,\"wit\":[", id, rname, uname,
            (unsigned long long)g_st.evals, vals.size(), (unsigned long long)g_st.mm);
